@@ -8,14 +8,21 @@ import SlVerif.Proofs.Buffered
 
   Model: SlVerif/Model/Buffered.lean — `BufferedMsgRelay::{wait_for, recv}` and `Stream::poll_next`
   of crates/sl-mpc-mate/src/coord/buffered.rs at the level of `Future::poll`, over an arbitrary
-  underlying relay given by the script of results of its `poll_next` (`Ev.msg b` / `Ev.pending` /
-  `Ev.closed`).  A call `recv id ttl k` / `waitFor ids k` polls a fresh future up to `k` times and
-  drops it if it is still pending (outcome `cancelled`); `k = 0` is "created and dropped".
+  underlying relay given by
+    * the script of results of its `Stream::poll_next` (`Ev.msg b` / `Ev.pending` / `Ev.closed`),
+    * the script of results of its `Sink::poll_ready` / `Sink::poll_flush` calls (`SinkEv.ok` /
+      `SinkEv.pending` / `SinkEv.err`; exhausted = `ok`): `recv` awaits `poll_ready` (the feed of its
+      ASK), `wait_for` awaits `poll_flush` after the buffer scan and before the pull loop,
+    * the script of results of its `Sink::start_send` calls (`true` = Ok; exhausted = Ok).
+  A call `recv id ttl k` / `waitFor ids k` polls a fresh future up to `k` times and drops it if it
+  is still pending (outcome `cancelled`); `k = 0` is "created and dropped".  A future can be
+  suspended (and therefore dropped) in `poll_ready`, in `poll_flush`, or in the pull loop.
 
   Quantification.  Every theorem holds for ALL states (any buffer, any script: any frames, also
-  malformed ones shorter than the 36-byte header, any placement of `pending`/`closed`), ALL ids and
-  id sets, ALL poll counts (= cancellation points) and, for the run theorems, ALL call sequences.
-  Nothing is enumerated.
+  malformed ones shorter than the 36-byte header, any placement of `pending`/`closed`; any sink
+  script and any `start_send` script: any placement of not-ready points and errors on the output
+  side), ALL ids and id sets, ALL poll counts (= cancellation points) and, for the run theorems, ALL
+  call sequences.  Nothing is enumerated.
 
   Vocabulary (defined in SlVerif/Proofs/Buffered.lean, characterised in the first section):
     `wf m`              the frame has a parseable header
@@ -25,7 +32,12 @@ import SlVerif.Proofs.Buffered
     `delivered outs`    the frames of the `got` outcomes
     `droppedBy s c`, `droppedRun s cs`   the frames pulled and silently dropped (an explicit
                         function of the run: the malformed frames pulled by `recv`/`wait_for` calls)
-    `asksOf cs`         one ASK per `recv` polled at least once
+    `sinkWait k sink`   `k` polls of a future suspended on the sink: how the wait ends, the sink
+                        script left, the polls left
+    `OkAfter p sink r`  the sink answers `Pending` `p` times and then `Ready(Ok)`, leaving `r`
+    `feedOk k sink sends`   within `k` polls the ASK of a `recv` was accepted by the sink
+    `asksBy s c`, `asksRun s cs`   the ASKs accepted by the sink: one per `recv` whose feed went through
+    `asksOf cs`         one ASK per `recv` polled at least once (= `asksRun` for an always-ready sink)
 -/
 namespace SlVerif.C17
 open SlVerif SlVerif.Buffered
@@ -77,6 +89,77 @@ theorem droppedRun_nil (s : State) : droppedRun s [] = [] := rfl
 theorem droppedRun_cons (s : State) (c : Call) (cs : List Call) :
     droppedRun s (c :: cs) = droppedBy s c ++ droppedRun (call s c).1 cs := rfl
 
+theorem sinkWait_zero (l : List SinkEv) : sinkWait 0 l = (.pending, l, 0) := rfl
+theorem sinkWait_exhausted (k : Nat) : sinkWait (k + 1) [] = (.ok, [], k + 1) := rfl
+theorem sinkWait_cons_ok (k : Nat) (r : List SinkEv) : sinkWait (k + 1) (.ok :: r) = (.ok, r, k + 1) := rfl
+theorem sinkWait_cons_err (k : Nat) (r : List SinkEv) :
+    sinkWait (k + 1) (.err :: r) = (.err, r, k + 1) := rfl
+theorem sinkWait_cons_pending (k : Nat) (r : List SinkEv) :
+    sinkWait (k + 1) (.pending :: r) = sinkWait k r := rfl
+
+theorem okAfter_iff (p : Nat) (sink r : List SinkEv) :
+    OkAfter p sink r ↔
+      (sink = List.replicate p .pending ++ .ok :: r ∨ (sink = List.replicate p .pending ∧ r = [])) :=
+  Iff.rfl
+
+/-- `feedOk`: some poll `p + 1 ≤ k` got `Ready(Ok)` from `poll_ready` (after `p` times `Pending`)
+    and the next `start_send` does not fail -/
+theorem feedOk_iff (k : Nat) (sink : List SinkEv) (sends : List Bool) :
+    feedOk k sink sends = true ↔
+      (∃ p r, p < k ∧ OkAfter p sink r) ∧ sends.head? ≠ some false := by
+  constructor
+  · intro h
+    unfold feedOk at h
+    rcases hw : sinkWait k sink with ⟨e, r, j⟩
+    rw [hw] at h
+    cases e with
+    | pending => simp at h
+    | err => simp at h
+    | ok =>
+      obtain ⟨p, h1, _, h3⟩ := sinkWait_ok hw
+      refine ⟨⟨p, r, h1, h3⟩, ?_⟩
+      intro hc
+      simp only [hc] at h
+      simp at h
+  · rintro ⟨⟨p, r, hp, hok⟩, hs⟩
+    rw [feedOk_of_okAfter hp hok]
+    cases sends with
+    | nil => rfl
+    | cons b t => cases b with
+      | true => rfl
+      | false => simp at hs
+
+theorem asksBy_recv (s : State) (id : Id) (ttl k : Nat) :
+    asksBy s (.recv id ttl k) = if feedOk k s.sink s.sends then [(id, ttl)] else [] := rfl
+theorem asksBy_waitFor (s : State) (ids : List Id) (k : Nat) : asksBy s (.waitFor ids k) = [] := rfl
+theorem asksBy_next (s : State) : asksBy s .next = [] := rfl
+theorem asksRun_nil (s : State) : asksRun s [] = [] := rfl
+theorem asksRun_cons (s : State) (c : Call) (cs : List Call) :
+    asksRun s (c :: cs) = asksBy s c ++ asksRun (call s c).1 cs := rfl
+
+/-- with a sink that is always ready and never fails the accepted ASKs are: one per `recv`
+    polled at least once -/
+theorem asksRun_ready_sink (s : State) (cs : List Call) (h1 : s.sink = []) (h2 : s.sends = []) :
+    asksRun s cs = asksOf cs := by
+  induction cs generalizing s with
+  | nil => rfl
+  | cons c cs ih =>
+    obtain ⟨⟨d, hd⟩, ⟨t, ht⟩⟩ := call_sink_sends s c
+    have h1' : (call s c).1.sink = [] := by
+      rw [h1] at hd
+      exact (List.append_eq_nil_iff.mp hd.symm).2
+    have h2' : (call s c).1.sends = [] := by
+      rw [h2] at ht
+      exact (List.append_eq_nil_iff.mp ht.symm).2
+    rw [asksRun, ih _ h1' h2', asksOf_cons c cs]
+    congr 1
+    cases c with
+    | recv id ttl k =>
+      simp only [asksBy, h1, h2, feedOk_ready]
+      cases k <;> simp [asksOf]
+    | waitFor ids k => rfl
+    | next => rfl
+
 /-- `Vec::swap_remove(i)`: element `i` is handed out, all others are kept (as a multiset, the
     list with index `i` erased) -/
 theorem swapRemove_spec (l : List Bytes) (i : Nat) (h : i < l.length) :
@@ -117,16 +200,17 @@ end Ex
 /-- **C17 conservation.**  For every initial state and every call sequence: the run consumes a
     prefix of the script; the frames of that prefix together with the initially buffered frames are,
     as a multiset, exactly the frames handed to the application, the frames dropped, and the frames
-    still listed as buffered; every dropped frame is malformed; the sink saw exactly one ASK per
-    polled `recv`.  (`List.Perm` = equality of multisets: nothing lost, nothing duplicated.) -/
+    still listed as buffered; every dropped frame is malformed; the sink accepted exactly one ASK
+    per `recv` whose feed went through (`asksRun`; with an always-ready sink: one per polled `recv`).
+    Sink-side errors and not-ready points change nothing in this balance.  (`List.Perm` = equality of multisets: nothing lost, nothing duplicated.) -/
 theorem conservation (s : State) (cs : List Call) :
     s.script = consumedBy s (runCalls s cs).1 ++ (runCalls s cs).1.script ∧
     (msgsOf (consumedBy s (runCalls s cs).1) ++ s.buf).Perm
       (delivered (runCalls s cs).2 ++ droppedRun s cs ++ (runCalls s cs).1.buf) ∧
     (∀ m ∈ droppedRun s cs, decodeHdr? m = none) ∧
-    (runCalls s cs).1.asks = s.asks ++ asksOf cs := by
+    (runCalls s cs).1.asks = s.asks ++ asksRun s cs := by
   induction cs generalizing s with
-  | nil => simp [runCalls, consumedBy_self, delivered, droppedRun, msgsOf, asksOf]
+  | nil => simp [runCalls, consumedBy_self, delivered, droppedRun, msgsOf, asksRun]
   | cons c cs ih =>
     obtain ⟨i1, i2, i3, i4⟩ := ih (call s c).1
     obtain ⟨c1, c2⟩ := call_conserve s c
@@ -156,7 +240,7 @@ theorem conservation (s : State) (cs : List Call) :
           simp only [droppedBy, List.mem_filter] at hm
           exact not_wf_iff.mp hm.2
       · exact i3 m hm
-    · rw [i4, call_asks, asksOf_cons c cs, List.append_assoc]
+    · rw [i4, call_asks, asksRun, List.append_assoc]
 
 /-- **C17 exactly once.**  For every well-formed frame `m` (no hypothesis on the initial buffer):
     the number of times it arrived from the underlying relay plus the number of times it was
@@ -216,14 +300,9 @@ theorem got_wellFormed_of_ne_next (s s' : State) (c : Call) (m : Bytes) (hc : c 
   cases c with
   | next => exact absurd rfl hc
   | waitFor ids k =>
-    exact Buffered.wf_iff.mp (matches_wf (runWaitFor_got_matches _ k s s' m h))
+    exact Buffered.wf_iff.mp (matches_wf (runWaitFor_got_matches _ k .start s s' m h))
   | recv id ttl k =>
-    cases k with
-    | zero => simp [call, runRecv] at h
-    | succ k =>
-      have e : call s (.recv id ttl (k + 1)) = _ := runRecv_start id ttl k s
-      rw [e] at h
-      exact Buffered.wf_iff.mp (matches_wf (runWaitFor_got_matches _ _ _ s' m h))
+    exact Buffered.wf_iff.mp (matches_wf (runRecv_got_matches id ttl k s s' m h))
 
 /-- **C17 conservation without the stream interface**: with only `recv`/`wait_for` calls and a
     well-formed initial buffer, `wellFormed(pulled) + buffer = delivered + buffer'`. -/
@@ -269,19 +348,14 @@ example : call { script := [.msg Ex.bad] } .next = ({ script := [] }, .got Ex.ba
 theorem recv_returns_only_id (s s' : State) (id : Id) (ttl k : Nat) (m : Bytes)
     (h : call s (.recv id ttl k) = (s', .got m)) :
     ∃ hd, decodeHdr? m = some hd ∧ hd.id = id := by
-  cases k with
-  | zero => simp [call, runRecv] at h
-  | succ k =>
-    have e : call s (.recv id ttl (k + 1)) = _ := runRecv_start id ttl k s
-    rw [e] at h
-    obtain ⟨hd, h1, h2⟩ := Buffered.matches_iff.mp (runWaitFor_got_matches _ _ _ s' m h)
-    exact ⟨hd, h1, by simpa using h2⟩
+  obtain ⟨hd, h1, h2⟩ := Buffered.matches_iff.mp (runRecv_got_matches id ttl k s s' m h)
+  exact ⟨hd, h1, by simpa using h2⟩
 
 /-- whatever `wait_for(|id| ids.contains(id))` returns has a parseable header whose id is in `ids` -/
 theorem waitFor_returns_only_matching (s s' : State) (ids : List Id) (k : Nat) (m : Bytes)
     (h : call s (.waitFor ids k) = (s', .got m)) :
     ∃ hd, decodeHdr? m = some hd ∧ hd.id ∈ ids := by
-  obtain ⟨hd, h1, h2⟩ := Buffered.matches_iff.mp (runWaitFor_got_matches _ k s s' m h)
+  obtain ⟨hd, h1, h2⟩ := Buffered.matches_iff.mp (runWaitFor_got_matches _ k .start s s' m h)
   exact ⟨hd, h1, by simpa using h2⟩
 
 example : (call Ex.s1 (.recv Ex.idA 7 1)).2 = .got (Ex.fr Ex.idA 3) := by decide
@@ -290,39 +364,57 @@ example : (call Ex.s0 (.waitFor [Ex.idA, Ex.idB] 1)).2 = .got (Ex.fr Ex.idB 1) :
 /-! ### cancellation loses nothing, and reissuing behaves like an uninterrupted call -/
 
 /-- **C17 cancellation (recv).**  If a `recv(id, ttl)` future is dropped after `k` polls while
-    still pending then: with `k = 0` nothing happened at all; otherwise the only changes are the
-    recorded ASK, the consumed script prefix, and the buffer, which is the old buffer followed by
-    the well-formed frames of the consumed prefix in arrival order.  No consumed frame (and no
-    frame buffered before) carries `id`, the prefix does not contain the end of the stream, and
-    every consumed frame is now buffered or was malformed. -/
+    still pending — suspended in `poll_ready` of the feed, in `poll_flush`, or in the pull loop —
+    then: with `k = 0` nothing happened at all; otherwise the only changes are the accepted ASK (if
+    the feed went through), the consumed sink / `start_send` script prefixes, the consumed script
+    prefix, and the buffer, which is the old buffer followed by the well-formed frames of the
+    consumed prefix in arrival order.  No consumed frame carries `id` (and, if the feed went through
+    so that the buffer was scanned, no frame buffered before), the prefix does not contain the end of
+    the stream, every consumed frame is now buffered or was malformed, and the sink answered no
+    error.  If the future was dropped in the feed, nothing but the sink script changed. -/
 theorem cancel_is_harmless (s s' : State) (id : Id) (ttl k : Nat)
     (h : call s (.recv id ttl k) = (s', .cancelled)) :
     (k = 0 → s' = s) ∧
-    s'.asks = s.asks ++ (if k = 0 then [] else [(id, ttl)]) ∧
+    s'.asks = s.asks ++ asksBy s (.recv id ttl k) ∧
     s.script = consumedBy s s' ++ s'.script ∧
     s'.buf = s.buf ++ (msgsOf (consumedBy s s')).filter wf ∧
     (∀ m ∈ msgsOf (consumedBy s s'), ∀ hd, decodeHdr? m = some hd → hd.id ≠ id) ∧
-    (1 ≤ k → ∀ m ∈ s.buf, ∀ hd, decodeHdr? m = some hd → hd.id ≠ id) ∧
+    (feedOk k s.sink s.sends = true → ∀ m ∈ s.buf, ∀ hd, decodeHdr? m = some hd → hd.id ≠ id) ∧
     (∀ e ∈ consumedBy s s', e ≠ Ev.closed) ∧
-    (∀ m ∈ msgsOf (consumedBy s s'), m ∈ s'.buf ∨ decodeHdr? m = none) := by
+    (∀ m ∈ msgsOf (consumedBy s s'), m ∈ s'.buf ∨ decodeHdr? m = none) ∧
+    (∃ d, s.sink = d ++ s'.sink ∧ ∀ e ∈ d, e ≠ SinkEv.err) ∧
+    (feedOk k s.sink s.sends = false →
+      s.sink = List.replicate k .pending ++ s'.sink ∧ s' = { s with sink := s'.sink }) := by
   have noMatch : ∀ m : Bytes, matches_ (fun x => x == id) m = false →
       ∀ hd, decodeHdr? m = some hd → hd.id ≠ id := by
     intro m hm hd hdec hid
     have : matches_ (fun x => x == id) m = true :=
       Buffered.matches_iff.mpr ⟨hd, hdec, by simp [hid]⟩
     rw [hm] at this; cases this
-  cases k with
-  | zero =>
+  have hasks := call_asks s (.recv id ttl k)
+  rw [h] at hasks
+  refine ⟨?_, hasks, ?_⟩
+  · intro hk
+    subst hk
     simp only [call, runRecv, Prod.mk.injEq, and_true] at h
-    subst h
-    simp [consumedBy_self, msgsOf]
-  | succ k =>
-    have e : call s (.recv id ttl (k + 1)) = _ := runRecv_start id ttl k s
-    rw [e] at h
-    obtain ⟨hb, c, h1, h2, h3, h4, h5⟩ := runWaitFor_start_cancelled _ _ _ s' (by omega) h
+    exact h.symm
+  rcases runRecv_cancelled id ttl k s s' h with ⟨hf, hs, hs'⟩ | ⟨hf, p, r, hp, hok, hsend, hw⟩
+  · -- dropped in the feed
+    have hscr : s'.script = s.script := by rw [hs']
+    have hbuf : s'.buf = s.buf := by rw [hs']
+    have hc : consumedBy s s' = [] := consumedBy_eq (c := []) (by simp [hscr])
+    rw [hc]
+    refine ⟨by simp [hscr], by simp [hbuf, msgsOf], by simp [msgsOf], ?_, by simp, by simp [msgsOf],
+      ⟨_, hs, ?_⟩, fun _ => ⟨hs, hs'⟩⟩
+    · intro hc'; rw [hf] at hc'; cases hc'
+    · intro e he; rw [List.eq_of_mem_replicate he]; simp
+  · -- the feed went through; dropped inside wait_for
+    obtain ⟨hb, ⟨c, h1, h2, h3, h4⟩, _, _, d, hd, hd'⟩ :=
+      runWaitFor_start_cancelled _ (k - p) _ s' (by omega) hw
+    simp only at hb h1 h4 hd
     have hc : consumedBy s s' = c := consumedBy_eq h1
     rw [hc]
-    refine ⟨by omega, by simpa using h5, h1, h4, ?_, ?_, h3, ?_⟩
+    refine ⟨h1, h4, ?_, ?_, h3, ?_, ?_, ?_⟩
     · intro m hm; exact noMatch m (h2 m hm)
     · intro _ m hm; exact noMatch m (hb m hm)
     · intro m hm
@@ -331,29 +423,66 @@ theorem cancel_is_harmless (s s' : State) (id : Id) (ttl k : Nat)
       · right
         have : (!wf m) = true := by simpa using hw
         exact not_wf_iff.mp this
+    · rcases hok with hok | ⟨hok, hr⟩
+      · refine ⟨List.replicate p .pending ++ [.ok] ++ d, by rw [hok, hd]; simp, ?_⟩
+        intro e he
+        simp only [List.mem_append, List.mem_singleton] at he
+        rcases he with (he | he) | he
+        · rw [List.eq_of_mem_replicate he]; simp
+        · rw [he]; simp
+        · exact hd' e he
+      · refine ⟨List.replicate p .pending ++ d, by rw [hok, List.append_assoc, ← hd, hr]; simp, ?_⟩
+        intro e he
+        simp only [List.mem_append] at he
+        rcases he with he | he
+        · rw [List.eq_of_mem_replicate he]; simp
+        · exact hd' e he
+    · intro hc'; rw [hf] at hc'; cases hc'
 
-/-- **C17 reissue (recv).**  Cancelling `recv(id, ttl)` after `k ≥ 1` pending polls and issuing it
-    again (polled `j ≥ 1` times) gives the same outcome and the same final buffer and remaining
-    script as one uninterrupted future polled `k + j` times; the only difference is the second
-    recorded ASK. -/
-theorem cancel_reissue (s s' : State) (id : Id) (ttl k j : Nat) (hk : 1 ≤ k) (hj : 1 ≤ j)
-    (h : call s (.recv id ttl k) = (s', .cancelled)) :
+/-- **C17 reissue (recv), dropped in the feed.**  For every sink script: cancelling a `recv` that
+    is still suspended in `poll_ready` (its ASK was not sent) and issuing it again is literally one
+    uninterrupted future polled `k + j` times. -/
+theorem cancel_reissue_on_feed (s s' : State) (id : Id) (ttl k j : Nat)
+    (h : call s (.recv id ttl k) = (s', .cancelled)) (hf : feedOk k s.sink s.sends = false) :
+    call s' (.recv id ttl j) = call s (.recv id ttl (k + j)) := by
+  rcases runRecv_cancelled id ttl k s s' h with ⟨_, hs, hs'⟩ | ⟨hf', _⟩
+  · simp only [call]
+    rw [runRecv_feeding, runRecv_feeding id ttl (k + j), hs,
+      sinkWait_add_pending j (sinkWait_replicate_pending k s'.sink), hs']
+  · rw [hf] at hf'; cases hf'
+
+/-- **C17 reissue (recv).**  Cancelling `recv(id, ttl)` after `k` pending polls — wherever it
+    was suspended — and issuing it again (polled `j ≥ 1` times), with a sink that from the
+    cancellation point on is ready and does not fail (anything may have happened before), gives the
+    same outcome and the same final buffer and remaining script as one uninterrupted future polled
+    `k + j` times; the only difference is the second accepted ASK (if the first one was sent). -/
+theorem cancel_reissue (s s' : State) (id : Id) (ttl k j : Nat) (hj : 1 ≤ j)
+    (h : call s (.recv id ttl k) = (s', .cancelled)) (hsink : s'.sink = []) (hsends : s'.sends = []) :
     (call s' (.recv id ttl j)).2 = (call s (.recv id ttl (k + j))).2 ∧
     (call s' (.recv id ttl j)).1 =
       { (call s (.recv id ttl (k + j))).1 with
-        asks := (call s (.recv id ttl (k + j))).1.asks ++ [(id, ttl)] } := by
-  obtain ⟨k', rfl⟩ : ∃ k', k = k' + 1 := ⟨k - 1, by omega⟩
-  obtain ⟨j', rfl⟩ : ∃ j', j = j' + 1 := ⟨j - 1, by omega⟩
-  have e1 : call s (.recv id ttl (k' + 1)) = _ := runRecv_start id ttl k' s
-  have e2 : call s (.recv id ttl (k' + 1 + (j' + 1))) = _ := runRecv_start id ttl (k' + 1 + j') s
-  have e3 : call s' (.recv id ttl (j' + 1)) = _ := runRecv_start id ttl j' s'
-  rw [e1] at h
-  have hr := runWaitFor_reissue _ (k' + 1) (j' + 1) _ s' h
-  have ha := (runWaitFor_start_conserve (fun x => x == id) (j' + 1) s').2.2
-  rw [e3, runWaitFor_start_asks, e2]
-  have e4 : k' + 1 + j' + 1 = k' + 1 + (j' + 1) := by omega
-  rw [e4, hr, ha]
-  exact ⟨rfl, rfl⟩
+        asks := (call s (.recv id ttl (k + j))).1.asks ++ asksBy s (.recv id ttl k) } := by
+  by_cases hf : feedOk k s.sink s.sends = true
+  · rcases runRecv_cancelled id ttl k s s' h with ⟨hf', _⟩ | ⟨_, p, r, hp, hok, hsend, hw⟩
+    · rw [hf] at hf'; cases hf'
+    · simp only [call, asksBy, hf, if_true]
+      have e2 := runRecv_feed_ok id ttl (k + j) s p r (by omega) hok hsend
+      have e3 := runRecv_feed_ok id ttl j s' 0 [] (by omega) (Or.inr ⟨by simp [hsink], rfl⟩)
+        (by simp [hsends])
+      have hr := runWaitFor_reissue _ (k - p) j _ s' hw (Or.inl hsink)
+      have e4 : k + j - p = k - p + j := by omega
+      have e5 : ({ s' with sink := [], sends := s'.sends.tail, asks := s'.asks ++ [(id, ttl)] } : State)
+          = { s' with asks := s'.asks ++ [(id, ttl)] } := by
+        obtain ⟨b, sc, a, si, se⟩ := s'
+        simp only at hsink hsends
+        subst hsink hsends
+        rfl
+      have ha := (runWaitFor_asks_sends (fun x => x == id) j .start s').1
+      rw [e2, e3, e4, hr, Nat.sub_zero, e5, runWaitFor_asks, ha]
+      exact ⟨rfl, rfl⟩
+  · have hf' : feedOk k s.sink s.sends = false := by simpa using hf
+    rw [cancel_reissue_on_feed s s' id ttl k j h hf']
+    simp [asksBy, hf']
 
 /-- with `j = 0` (reissued and dropped unpolled) or `k = 0` (the first future never polled) the
     composition is literally the single call -/
@@ -372,13 +501,14 @@ theorem cancel_reissue_zero (s s' : State) (id : Id) (ttl k : Nat)
 theorem cancel_is_harmless_waitFor (s s' : State) (ids : List Id) (k : Nat)
     (h : call s (.waitFor ids k) = (s', .cancelled)) :
     (k = 0 → s' = s) ∧
-    s'.asks = s.asks ∧
+    s'.asks = s.asks ∧ s'.sends = s.sends ∧
     s.script = consumedBy s s' ++ s'.script ∧
     s'.buf = s.buf ++ (msgsOf (consumedBy s s')).filter wf ∧
     (∀ m ∈ msgsOf (consumedBy s s'), ∀ hd, decodeHdr? m = some hd → hd.id ∉ ids) ∧
     (1 ≤ k → ∀ m ∈ s.buf, ∀ hd, decodeHdr? m = some hd → hd.id ∉ ids) ∧
     (∀ e ∈ consumedBy s s', e ≠ Ev.closed) ∧
-    (∀ m ∈ msgsOf (consumedBy s s'), m ∈ s'.buf ∨ decodeHdr? m = none) := by
+    (∀ m ∈ msgsOf (consumedBy s s'), m ∈ s'.buf ∨ decodeHdr? m = none) ∧
+    (∃ d, s.sink = d ++ s'.sink ∧ ∀ e ∈ d, e ≠ SinkEv.err) := by
   have noMatch : ∀ m : Bytes, matches_ (fun x => ids.contains x) m = false →
       ∀ hd, decodeHdr? m = some hd → hd.id ∉ ids := by
     intro m hm hd hdec hid
@@ -391,10 +521,10 @@ theorem cancel_is_harmless_waitFor (s s' : State) (ids : List Id) (k : Nat)
     subst h
     simp [consumedBy_self, msgsOf]
   | succ k =>
-    obtain ⟨hb, c, h1, h2, h3, h4, h5⟩ := runWaitFor_start_cancelled _ _ _ s' (by omega) h
+    obtain ⟨hb, ⟨c, h1, h2, h3, h4⟩, h5, h6, h7⟩ := runWaitFor_start_cancelled _ _ _ s' (by omega) h
     have hc : consumedBy s s' = c := consumedBy_eq h1
     rw [hc]
-    refine ⟨by omega, h5, h1, h4, ?_, ?_, h3, ?_⟩
+    refine ⟨by omega, h5, h6, h1, h4, ?_, ?_, h3, ?_, h7⟩
     · intro m hm; exact noMatch m (h2 m hm)
     · intro _ m hm; exact noMatch m (hb m hm)
     · intro m hm
@@ -405,11 +535,22 @@ theorem cancel_is_harmless_waitFor (s s' : State) (ids : List Id) (k : Nat)
         exact not_wf_iff.mp this
 
 /-- **C17 reissue (wait_for).**  For every cancellation point `k` and every `j`: cancelling after
-    `k` polls and reissuing for `j` polls is exactly one future polled `k + j` times. -/
+    `k` polls and reissuing for `j` polls is exactly one future polled `k + j` times, provided the
+    sink is ready and does not fail from the cancellation point on, OR the future was dropped while
+    suspended in the flush (all `k` polls answered `Pending` by the sink; any sink script after). -/
 theorem cancel_reissue_waitFor (s s' : State) (ids : List Id) (k j : Nat)
-    (h : call s (.waitFor ids k) = (s', .cancelled)) :
+    (h : call s (.waitFor ids k) = (s', .cancelled))
+    (hs : s'.sink = [] ∨ s.sink = List.replicate k .pending ++ s'.sink) :
     call s' (.waitFor ids j) = call s (.waitFor ids (k + j)) :=
-  (runWaitFor_reissue _ k j s s' h).symm
+  (runWaitFor_reissue _ k j s s' h hs).symm
+
+/-- **C17 reissue (wait_for), any sink.**  After a cancelled `wait_for` that was polled at least
+    once, the buffer scan of the reissued call finds nothing (nothing that matches was parked in
+    the meantime): it goes straight to a NEW flush of the sink and then on pulling. -/
+theorem cancel_reissue_waitFor_any_sink (s s' : State) (ids : List Id) (k j : Nat) (hk : 1 ≤ k)
+    (h : call s (.waitFor ids k) = (s', .cancelled)) :
+    call s' (.waitFor ids j) = runWaitFor (fun x => ids.contains x) j .flushing s' :=
+  runWaitFor_reissue_scan _ k j s s' hk h
 
 example : call Ex.s0 (.recv Ex.idA 7 1) = (Ex.s1, .cancelled) := by decide
 example : call Ex.s0 (.recv Ex.idA 7 0) = (Ex.s0, .cancelled) := by decide
@@ -421,28 +562,249 @@ example : call Ex.s0 (.recv Ex.idA 7 2) =
     ({ buf := [Ex.fr Ex.idB 1, Ex.fr Ex.idB 2], script := [.msg (Ex.fr Ex.idA 4), .closed],
        asks := [(Ex.idA, 7)] }, .got (Ex.fr Ex.idA 3)) := by decide
 example : (call Ex.s0 (.waitFor [Ex.idA] 1)).2 = .cancelled := by decide
+/-- dropped in the feed after two polls; the reissue goes through -/
+example : call { Ex.s2 with sink := [.pending, .pending, .pending, .ok] } (.recv Ex.idA 7 2) =
+    ({ Ex.s2 with sink := [.pending, .ok] }, .cancelled) := by decide
+example : call { Ex.s2 with sink := [.pending, .ok] } (.recv Ex.idA 7 2) =
+    ({ Ex.s2 with buf := [Ex.fr Ex.idB 1, Ex.fr Ex.idB 2], asks := [(Ex.idA, 7)], sink := [] },
+     .got (Ex.fr Ex.idA 3)) := by decide
+/-- dropped in the flush (no buffered frame matches, the sink is not ready) -/
+example : call { Ex.s1 with buf := [Ex.fr Ex.idB 1], sink := [.ok, .pending, .pending] }
+      (.recv Ex.idA 7 2) =
+    ({ Ex.s1 with buf := [Ex.fr Ex.idB 1], sink := [], asks := [(Ex.idA, 7), (Ex.idA, 7)] },
+     .cancelled) := by decide
+
+/-! ### errors and not-ready points of the sink lose nothing -/
+
+/-- **C17 flush error (wait_for).**  No buffered frame matches and the flush fails (after `p < k`
+    polls answered `Pending`): `wait_for` returns `None`; buffer, unread frames, asks are untouched. -/
+theorem flush_error_loses_nothing (s : State) (ids : List Id) (k p : Nat) (r : List SinkEv)
+    (hmiss : ∀ m ∈ s.buf, matches_ (fun x => ids.contains x) m = false) (hp : p < k)
+    (hs : s.sink = List.replicate p .pending ++ .err :: r) :
+    call s (.waitFor ids k) = ({ s with sink := r }, .none_) := by
+  simp only [call]
+  rw [runWaitFor_start_miss _ k s hmiss]
+  exact runWaitFor_flushing_err _ k s p r hp hs
+
+/-- **C17 cancellation in the flush (wait_for).**  No buffered frame matches and all `k` polls are
+    answered `Pending` by `poll_flush`; the future is dropped there: nothing but the sink script
+    changed. -/
+theorem flush_pending_cancel_loses_nothing (s : State) (ids : List Id) (k : Nat) (r : List SinkEv)
+    (hmiss : ∀ m ∈ s.buf, matches_ (fun x => ids.contains x) m = false)
+    (hs : s.sink = List.replicate k .pending ++ r) :
+    call s (.waitFor ids k) = ({ s with sink := r }, .cancelled) := by
+  simp only [call]
+  rw [runWaitFor_start_miss _ k s hmiss]
+  exact runWaitFor_flushing_pending _ k s r hs
+
+/-- **C17 `poll_ready` error (recv).**  Whatever is buffered: the feed fails in `poll_ready`,
+    `recv` returns `None`, nothing but the sink script changed (the ASK was not sent, the buffer
+    was not even scanned). -/
+theorem recv_ready_error_loses_nothing (s : State) (id : Id) (ttl k p : Nat) (r : List SinkEv)
+    (hp : p < k) (hs : s.sink = List.replicate p .pending ++ .err :: r) :
+    call s (.recv id ttl k) = ({ s with sink := r }, .none_) :=
+  runRecv_feed_err id ttl k s p r hp hs
+
+/-- **C17 cancellation in `poll_ready` (recv).** -/
+theorem recv_ready_pending_cancel_loses_nothing (s : State) (id : Id) (ttl k : Nat) (r : List SinkEv)
+    (hs : s.sink = List.replicate k .pending ++ r) :
+    call s (.recv id ttl k) = ({ s with sink := r }, .cancelled) :=
+  runRecv_feed_pending id ttl k s r hs
+
+/-- **C17 `start_send` error (recv).** -/
+theorem recv_send_error_loses_nothing (s : State) (id : Id) (ttl k p : Nat) (r : List SinkEv)
+    (t : List Bool) (hp : p < k) (hs : OkAfter p s.sink r) (hsend : s.sends = false :: t) :
+    call s (.recv id ttl k) = ({ s with sink := r, sends := t }, .none_) :=
+  runRecv_feed_send_err id ttl k s p r hp hs t hsend
+
+/-- **C17 flush error (recv).**  The feed goes through (after `p` not-ready polls), no buffered
+    frame carries `id`, and the flush fails (after `q` more not-ready polls, `p + q < k`): `recv`
+    returns `None`; the ASK is recorded, buffer and unread frames are untouched. -/
+theorem recv_flush_error_loses_nothing (s : State) (id : Id) (ttl k p q : Nat) (r r' : List SinkEv)
+    (hmiss : ∀ m ∈ s.buf, matches_ (fun x => x == id) m = false) (hpq : p + q < k)
+    (hs : OkAfter p s.sink r) (hsend : s.sends.head?.getD true = true)
+    (hr : r = List.replicate q .pending ++ .err :: r') :
+    call s (.recv id ttl k) =
+      ({ s with sink := r', sends := s.sends.tail, asks := s.asks ++ [(id, ttl)] }, .none_) := by
+  simp only [call]
+  rw [runRecv_feed_ok id ttl k s p r (by omega) hs hsend,
+    runWaitFor_start_miss _ (k - p) { s with sink := r, sends := s.sends.tail, asks := s.asks ++ [(id, ttl)] } hmiss]
+  exact runWaitFor_flushing_err _ (k - p) _ q r' (by omega) hr
+
+/-- **C17 cancellation in the flush (recv).** -/
+theorem recv_flush_pending_cancel_loses_nothing (s : State) (id : Id) (ttl k p : Nat)
+    (r r' : List SinkEv) (hmiss : ∀ m ∈ s.buf, matches_ (fun x => x == id) m = false) (hp : p < k)
+    (hs : OkAfter p s.sink r) (hsend : s.sends.head?.getD true = true)
+    (hr : r = List.replicate (k - p) .pending ++ r') :
+    call s (.recv id ttl k) =
+      ({ s with sink := r', sends := s.sends.tail, asks := s.asks ++ [(id, ttl)] }, .cancelled) := by
+  simp only [call]
+  rw [runRecv_feed_ok id ttl k s p r hp hs hsend,
+    runWaitFor_start_miss _ (k - p) { s with sink := r, sends := s.sends.tail, asks := s.asks ++ [(id, ttl)] } hmiss]
+  exact runWaitFor_flushing_pending _ (k - p) _ r' hr
+
+/-- **C17: every `None`.**  Whenever a call returns `None`, either the underlying stream ended (the
+    consumed script prefix ends with the end-of-stream event and every frame read before it is
+    buffered or was malformed), or the sink failed (`poll_ready` / `poll_flush` answered `Err`, or
+    `start_send` did) and then NEITHER THE BUFFER NOR THE UNREAD FRAMES CHANGED: nothing is lost. -/
+theorem none_loses_nothing (s s' : State) (c : Call) (h : call s c = (s', .none_)) :
+    (∃ c0, consumedBy s s' = c0 ++ [Ev.closed] ∧ s.script = consumedBy s s' ++ s'.script ∧
+      s'.buf = s.buf ++ (msgsOf c0).filter wf) ∨
+    (s'.buf = s.buf ∧ s'.script = s.script ∧
+      ((∃ d, s.sink = d ++ SinkEv.err :: s'.sink) ∨ s.sends = false :: s'.sends)) := by
+  cases c with
+  | waitFor ids k =>
+    rcases runWaitFor_start_none _ k s s' h with ⟨c0, h1, h2⟩ | ⟨h1, h2, h3⟩
+    · exact Or.inl ⟨c0, consumedBy_eq h1, by rw [consumedBy_eq h1]; exact h1, h2⟩
+    · exact Or.inr ⟨h1, h2, Or.inl h3⟩
+  | recv id ttl k =>
+    simp only [call] at h
+    rcases runRecv_feeding_cases id ttl k s with
+      ⟨r, _, _, e⟩ | ⟨p, r, _, hs, _, e⟩ | ⟨p, r, _, hs, ⟨hh, _, e⟩ | ⟨_, _, e⟩⟩
+    · rw [e] at h; simp at h
+    · rw [e] at h
+      simp only [Prod.mk.injEq, and_true] at h
+      subst h
+      exact Or.inr ⟨rfl, rfl, Or.inl ⟨_, hs⟩⟩
+    · rw [e] at h
+      simp only [Prod.mk.injEq, and_true] at h
+      subst h
+      refine Or.inr ⟨rfl, rfl, Or.inr ?_⟩
+      simp only
+      cases hsd : s.sends with
+      | nil => rw [hsd] at hh; simp at hh
+      | cons b t => rw [hsd] at hh; simp at hh; rw [hh]; rfl
+    · rw [e] at h
+      rcases runWaitFor_start_none _ _ _ s' h with ⟨c0, h1, h2⟩ | ⟨h1, h2, d, h3⟩
+      · simp only at h1 h2
+        exact Or.inl ⟨c0, consumedBy_eq h1, by rw [consumedBy_eq h1]; exact h1, h2⟩
+      · simp only at h1 h2 h3
+        refine Or.inr ⟨h1, h2, Or.inl ?_⟩
+        rcases hs with hs | ⟨hs, hr⟩
+        · exact ⟨List.replicate p .pending ++ [.ok] ++ d, by rw [hs, h3]; simp⟩
+        · rw [hr] at h3
+          have := congrArg List.length h3
+          simp at this
+  | next =>
+    obtain ⟨buf, script, asks, sink, sends⟩ := s
+    simp only [call, pollNext] at h
+    cases hl : buf.getLast? with
+    | some m => rw [hl] at h; simp at h
+    | none =>
+      rw [hl] at h
+      have hb : buf = [] := List.getLast?_eq_none_iff.mp hl
+      subst hb
+      cases script with
+      | nil => simp [pollUnder] at h
+      | cons e rest =>
+        cases e with
+        | msg b => simp [pollUnder] at h
+        | pending => simp [pollUnder] at h
+        | closed =>
+          simp only [pollUnder, Prod.mk.injEq, and_true] at h
+          subst h
+          have hc : consumedBy ⟨[], Ev.closed :: rest, asks, sink, sends⟩ ⟨[], rest, asks, sink, sends⟩
+              = [Ev.closed] := consumedBy_eq (c := [Ev.closed]) rfl
+          exact Or.inl ⟨[], by rw [hc]; rfl, by rw [hc]; rfl, by simp [msgsOf]⟩
+
+/-- without a failing sink, `None` means the underlying stream ended -/
+theorem none_only_if_closed_or_sink_error (s s' : State) (c : Call) (h : call s c = (s', .none_))
+    (hsink : SinkEv.err ∉ s.sink) (hsends : false ∉ s.sends) : Ev.closed ∈ consumedBy s s' := by
+  rcases none_loses_nothing s s' c h with ⟨c0, h1, _, _⟩ | ⟨_, _, ⟨d, h3⟩ | h3⟩
+  · rw [h1]; simp
+  · exact absurd (by rw [h3]; simp) hsink
+  · exact absurd (by rw [h3]; simp) hsends
+
+/-- **C17: every cancellation that read nothing.**  A call that is dropped while pending without
+    having read anything from the underlying stream — in particular one suspended in `poll_ready`
+    or `poll_flush` — leaves the buffer exactly as it was. -/
+theorem cancel_without_reading_changes_nothing (s s' : State) (c : Call)
+    (h : call s c = (s', .cancelled)) (hscr : s'.script = s.script) : s'.buf = s.buf := by
+  have hc : consumedBy s s' = [] := consumedBy_eq (c := []) (by simp [hscr])
+  cases c with
+  | recv id ttl k =>
+    have := (cancel_is_harmless s s' id ttl k h).2.2.2.1
+    rw [hc] at this
+    simpa [msgsOf] using this
+  | waitFor ids k =>
+    have := (cancel_is_harmless_waitFor s s' ids k h).2.2.2.2.1
+    rw [hc] at this
+    simpa [msgsOf] using this
+  | next =>
+    obtain ⟨buf, script, asks, sink, sends⟩ := s
+    simp only [call, pollNext] at h
+    cases hl : buf.getLast? with
+    | some m => rw [hl] at h; simp at h
+    | none =>
+      rw [hl] at h
+      cases script with
+      | nil => simp only [pollUnder, Prod.mk.injEq, and_true] at h; rw [← h]
+      | cons e rest =>
+        cases e with
+        | msg b => simp [pollUnder] at h
+        | closed => simp [pollUnder] at h
+        | pending => simp only [pollUnder, Prod.mk.injEq, and_true] at h; rw [← h]
+
+/-- the witness of the seeded defect "take the buffered frame out before awaiting the flush": here
+    the frame `fr idB 1` is buffered, the flush fails, and it is STILL buffered afterwards -/
+example : call { Ex.s2 with buf := [Ex.fr Ex.idB 1], sink := [.err] } (.waitFor [Ex.idA] 3) =
+    ({ Ex.s2 with buf := [Ex.fr Ex.idB 1], sink := [] }, .none_) := by decide
+/-- a buffered match is returned without touching the sink at all, even when the sink would fail -/
+example : call { Ex.s2 with sink := [.err], sends := [false] } (.waitFor [Ex.idB] 1) =
+    ({ Ex.s2 with buf := [Ex.fr Ex.idB 2, Ex.fr Ex.idA 3], sink := [.err], sends := [false] },
+     .got (Ex.fr Ex.idB 1)) := by decide
+example : call { Ex.s2 with sink := [.pending, .err] } (.recv Ex.idA 7 2) =
+    ({ Ex.s2 with sink := [] }, .none_) := by decide
+example : call { Ex.s2 with sends := [false, true] } (.recv Ex.idA 7 1) =
+    ({ Ex.s2 with sends := [true] }, .none_) := by decide
+example : call { Ex.s1 with buf := [Ex.fr Ex.idB 1], sink := [.pending, .ok, .pending, .err, .ok] }
+      (.recv Ex.idA 7 9) =
+    ({ Ex.s1 with buf := [Ex.fr Ex.idB 1], sink := [.ok], asks := [(Ex.idA, 7), (Ex.idA, 7)] },
+     .none_) := by decide
+example : feedOk 2 [.pending, .ok] [] = true ∧ feedOk 1 [.pending, .ok] [] = false ∧
+    feedOk 1 [] [false] = false ∧ feedOk 1 [.err] [] = false := by decide
 
 /-! ### buffered frames first -/
 
 /-- **C17 buffered-first (wait_for).**  If buffered frame `i` is the first one matching the
     predicate, a polled `wait_for` returns it at once, removes it by `swap_remove(i)` and touches
-    neither the script nor anything else. -/
+    neither the script nor the sink (no flush, whatever the sink would answer) nor anything else. -/
 theorem buffered_first (s : State) (ids : List Id) (k i : Nat) (hi : i < s.buf.length)
     (hm : matches_ (fun x => ids.contains x) s.buf[i] = true)
     (hfirst : ∀ j (hj : j < i), matches_ (fun x => ids.contains x) (s.buf[j]'(by omega)) = false) :
     call s (.waitFor ids (k + 1)) = ({ s with buf := swapRemove s.buf i }, .got s.buf[i]) :=
   runWaitFor_start_hit _ k s i hi (findIdx_zero_some.mpr ⟨hi, hm, hfirst⟩)
 
-/-- **C17 buffered-first (recv)**: the same, after recording the ASK. -/
-theorem buffered_first_recv (s : State) (id : Id) (ttl k i : Nat) (hi : i < s.buf.length)
+/-- **C17 buffered-first (recv)**: the same, once the feed of the ASK went through (after `p`
+    not-ready polls of `poll_ready`, `p ≤ k`); the flush is never awaited. -/
+theorem buffered_first_recv (s : State) (id : Id) (ttl k i p : Nat) (r : List SinkEv)
+    (hi : i < s.buf.length)
     (hm : matches_ (fun x => x == id) s.buf[i] = true)
-    (hfirst : ∀ j (hj : j < i), matches_ (fun x => x == id) (s.buf[j]'(by omega)) = false) :
+    (hfirst : ∀ j (hj : j < i), matches_ (fun x => x == id) (s.buf[j]'(by omega)) = false)
+    (hp : p ≤ k) (hs : OkAfter p s.sink r) (hsend : s.sends.head?.getD true = true) :
+    call s (.recv id ttl (k + 1)) =
+      ({ s with buf := swapRemove s.buf i, asks := s.asks ++ [(id, ttl)], sink := r,
+                sends := s.sends.tail }, .got s.buf[i]) := by
+  simp only [call]
+  rw [runRecv_feed_ok id ttl (k + 1) s p r (by omega) hs hsend]
+  obtain ⟨k', hk'⟩ : ∃ k', k + 1 - p = k' + 1 := ⟨k - p, by omega⟩
+  rw [hk']
+  exact runWaitFor_start_hit _ k' { s with sink := r, sends := s.sends.tail, asks := s.asks ++ [(id, ttl)] } i hi
+    (findIdx_zero_some.mpr ⟨hi, hm, hfirst⟩)
+
+/-- the always-ready sink: `p = 0`, nothing scripted -/
+theorem buffered_first_recv_ready_sink (s : State) (id : Id) (ttl k i : Nat) (hi : i < s.buf.length)
+    (hm : matches_ (fun x => x == id) s.buf[i] = true)
+    (hfirst : ∀ j (hj : j < i), matches_ (fun x => x == id) (s.buf[j]'(by omega)) = false)
+    (h1 : s.sink = []) (h2 : s.sends = []) :
     call s (.recv id ttl (k + 1)) =
       ({ s with buf := swapRemove s.buf i, asks := s.asks ++ [(id, ttl)] }, .got s.buf[i]) := by
-  have e : call s (.recv id ttl (k + 1)) = _ := runRecv_start id ttl k s
-  rw [e]
-  exact runWaitFor_start_hit _ k { s with asks := s.asks ++ [(id, ttl)] } i hi
-    (findIdx_zero_some.mpr ⟨hi, hm, hfirst⟩)
+  rw [buffered_first_recv s id ttl k i 0 [] hi hm hfirst (by omega) (Or.inr ⟨by simp [h1], rfl⟩)
+    (by simp [h2])]
+  obtain ⟨b, sc, a, si, se⟩ := s
+  simp only at h1 h2
+  subst h1 h2
+  rfl
 
 /-- whenever some buffered frame matches there is a first one, so the theorems above apply -/
 theorem buffered_first_exists (pred : Id → Bool) (buf : List Bytes)
